@@ -17,7 +17,6 @@ for the concrete `d` is `jubjub_d_nonsquare_euler` below) and `EdAssoc d` (assoc
 affine law).
 -/
 namespace MidnightZK.C06
-open Lean.Grind
 
 variable {F : Type} [Lean.Grind.Field F]
 
@@ -154,7 +153,7 @@ theorem cond_add_gate_complete {d : F} (hc : EdComplete d) (Q S : F × F) (hQ : 
   · unfold CondAddHolds; simp only [Bool.false_eq_true, if_false]; grind
   · obtain ⟨a, b⟩ := edAdd_sum hc hQ hS
     unfold CondAddHolds; simp only [if_true]
-    refine ⟨?_, ?_, ?_⟩ <;> first | grind | trivial
+    refine ⟨?_, ?_, ?_⟩ <;> grind
 
 /-! ## The addition law used by the gates -/
 
@@ -231,7 +230,7 @@ theorem weierstrass_add_sound {b px py qx qy rx ry lam : F} (hP : WOn b px py) (
       WOn b rx ry := by
   obtain ⟨a, b1, c⟩ := addIds_formulas h
   have hd : qx - px ≠ 0 := by grind
-  have hw := Field.mul_inv_cancel hd
+  have hw := Lean.Grind.Field.mul_inv_cancel hd
   refine ⟨?_, b1, c, addIds_on_curve hP hQ hne h⟩
   generalize (qx - px)⁻¹ = w at hw ⊢
   have : lam * ((qx - px) * w) = (qy - py) * w := by grind
@@ -255,7 +254,7 @@ theorem weierstrass_double_sound {b px py rx ry lam : F} (hP : WOn b px py) (hy 
     lam = 3 * (px * px) * (2 * py)⁻¹ ∧ rx = lam * lam - px - px ∧ ry = lam * (px - rx) - py ∧
       WOn b rx ry := by
   obtain ⟨a, b1, c⟩ := doubleIds_formulas h
-  have hw := Field.mul_inv_cancel hy
+  have hw := Lean.Grind.Field.mul_inv_cancel hy
   refine ⟨?_, b1, c, doubleIds_on_curve hP hy h⟩
   generalize (2 * py)⁻¹ = w at hw ⊢
   have : lam * ((2 * py) * w) = 3 * (px * px) * w := by grind
@@ -341,8 +340,10 @@ cannot change the result. -/
 theorem windowed_msm_sound (ws l : Nat) (R : G) (P : Nat → G) (rows : List (Nat → Nat)) :
     rows.foldl (windowStep ws l ((2 ^ ws - 1) • R) P) (l • R) - l • R
       = dotN l (combine ws (fun _ => 0) rows) P := by
-  have h0 : l • R = l • R + dotN l (fun _ => 0) P := by simp [dotN]
-  rw [h0, windowed_fold]; simp
+  have hz : dotN l (fun _ => 0) P = 0 := by simp [dotN]
+  have h0 : l • R = l • R + dotN l (fun _ => 0) P := by rw [hz, add_zero]
+  conv => lhs; rw [h0]
+  rw [windowed_fold, ← h0, add_sub_cancel_left]
 
 /-- Non-vacuity: one base, windows `[1, 2]` of 4 bits: the scalar is `18`. -/
 example : combine 4 (fun _ => 0) [fun _ => 1, fun _ => 2] 0 = 18 := by decide
